@@ -1084,6 +1084,73 @@ def check_loops(ctx, rng, n, stats, open_f):
         if report(ctx, open_f, "generated nested-loop program (tail-recursive function calling a tail-recursive function)", p, a, stats, shrink=shrink_lines) and len(ctx.violations) > 3:
             return
 
+
+# ------------------------------------------------------------------ oracle F: member references in value position
+
+BUILTIN_REFS = [   # (expression denoting the member, how a value `f` of it is used, type annotation)
+    ("Process.println", 'f("a")', "(Str) -> unit"),
+    ("Process.panic<int>", 'Process.println("k")', "(Str) -> int"),
+    ("Str.fromInt", "Process.println(f(3))", "(int) -> Str"),
+    ('"12".toInt', "Process.println(Str.fromInt(f()))", "() -> int"),
+    ("Vec.empty<int>", "Process.println(Str.fromInt(f().length()))", "() -> Vec<int>"),
+    ("Vec.of<int>", "Process.println(Str.fromInt(f(4).length()))", "(int) -> Vec<int>"),
+    ("Vec.withCapacity<int>", "Process.println(Str.fromInt(f(4).length()))", "(int) -> Vec<int>"),
+    ("v.length", "Process.println(Str.fromInt(f()))", "() -> int"),
+    ("v.capacity", "Process.println(Str.fromInt(f()))", "() -> int"),
+    ("v.reserve", "Process.println(Str.fromInt(f(8)))", None),
+    ("v.push", "Process.println(Str.fromInt(f(2)))", None),
+    ("v.pop", "Process.println(Str.fromInt(f()))", "() -> int"),
+    ("v.get", "Process.println(Str.fromInt(f(0)))", "(int) -> int"),
+    ("v.set", "Process.println(Str.fromInt(f(0, 5)))", None),
+    ("v.eq", "Process.println(if f(v) { \"t\" } else { \"f\" })", None),
+    # members of user classes, constructors and std members as values must keep working
+    ("Main.twice", "Process.println(Str.fromInt(f(4)))", "(int) -> int"),
+    ("Bx.init", "Process.println(Str.fromInt(f(4).get()))", "(int) -> Bx"),
+    ("Opt.Yes", "Process.println(Str.fromInt(f(4).code()))", "(int) -> Opt"),
+    ("Bx.init(7).get", "Process.println(Str.fromInt(f()))", "() -> int"),
+]
+
+
+def gen_member_refs(rng):
+    progs = []
+    pre = ("class Bx(val c: int) {\n  method get(): int = this.c\n}\n"
+           "class Opt(No, Yes(int)) {\n  method code(): int = match this { No -> 0, Yes(n) -> n }\n}\n")
+    for ref, use, ann in BUILTIN_REFS:
+        for style in range(4):
+            if style == 0:
+                body = f"    let f = {ref};\n    let _ = {use};"
+            elif style == 1:
+                if not ann:
+                    continue
+                body = f"    let f: {ann} = {ref};\n    let _ = {use};"
+            elif style == 2:      # passed as an argument, used by a function that is not inlined away
+                if not ann:
+                    continue
+                body = f"    let _ = Main.keep({ref});"
+            else:                 # returned from an if, so that no pass can resolve the callee statically
+                body = f"    let f = if b {{ {ref} }} else {{ {ref} }};\n    let _ = {use};"
+            keep = f"  function keep(f: {ann}): unit = {{ let _ = {use}; }}\n" if (ann and style == 2) else ""
+            src = (pre + "class Main {\n  function twice(x: int): int = x * 2\n" + keep +
+                   "  function run(b: bool): unit = {\n    let v = Vec.of(1);\n" + body + "\n  }\n"
+                   "  function main(): unit = Main.run(true)\n}\n")
+            progs.append((f"member reference `{ref}` in value position (style {style})",
+                          {"sources": {"Main": src}, "entry": "Main", "std": False, "run": True, "ts": True, "timeout_ms": 8000}))
+    return progs
+
+
+def check_member_refs(ctx, rng, stats, open_f):
+    progs = gen_member_refs(rng)
+    for (d, p), a in zip(progs, eval_programs([p for _, p in progs])):
+        stats["member_refs"] = stats.get("member_refs", 0) + 1
+        stats["gate_lines"].append((a.get("nerr", -1), a.get("compile")))
+        if a.get("check") == "done" and a.get("nerr", 1) == 0:
+            stats["member_refs_accepted"] = stats.get("member_refs_accepted", 0) + 1
+            if report(ctx, open_f, d, p, a, stats) and len(ctx.violations) > 3:
+                return
+    if stats.get("member_refs_accepted", 0) == 0:
+        ctx.violation("member-reference stream: not even references to user functions / constructors are accepted (generator broken)",
+                      {"broken": "member-reference stream"}, no_input=True)
+
 # ------------------------------------------------------------------ gate tie
 
 def check_gate(ctx, stats):
@@ -1225,6 +1292,7 @@ def run(ctx):
         ("layouts", lambda: check_layouts(ctx, rng.fork(), ctx.scale(60, 1500), stats, open_f)),
         ("matches", lambda: check_matches(ctx, rng.fork(), ctx.scale(120, 4000), stats, open_f)),
         ("multimodule", lambda: check_multimodule(ctx, rng.fork(), ctx.scale(12, 250), stats, open_f)),
+        ("member-refs", lambda: check_member_refs(ctx, rng.fork(), stats, open_f)),
         ("loops", lambda: check_loops(ctx, rng.fork(), ctx.scale(40, 800), stats, open_f)),
         ("generated", lambda: check_generated(ctx, rng.fork(), ctx.scale(40, 600), stats, open_f)),
         ("mutants", lambda: check_mutants(ctx, rng.fork(), ctx.scale(320, 6000), stats, open_f)),
@@ -1235,8 +1303,8 @@ def run(ctx):
             break
         f()
     evaluations = (stats.get("layout_cases", 0) + stats["kernel_lines"] + stats["str_cases"] + stats["match_cases"] + stats["mutants"] +
-                   stats["generated"] + stats["mm_bases"] + stats["mm_mutants"] + stats["corpus"] + stats.get("loop_programs", 0))
-    nontrivial = (stats.get("loop_programs", 0) + stats["mutants_accepted"] + stats["generated_accepted"] + stats["mm_bases"] + stats["mm_mutants_accepted"] +
+                   stats["generated"] + stats["mm_bases"] + stats["mm_mutants"] + stats["corpus"] + stats.get("loop_programs", 0) + stats.get("member_refs", 0))
+    nontrivial = (stats.get("member_refs_accepted", 0) + stats.get("loop_programs", 0) + stats["mutants_accepted"] + stats["generated_accepted"] + stats["mm_bases"] + stats["mm_mutants_accepted"] +
                   stats["match_acc"].get("1", 0) + stats["str_hist"].get("closed", 0))
     gl = stats.pop("gate_lines")
     ctx.cov.update({
